@@ -65,7 +65,7 @@ Quantified over: %(quant)s
 1. A change to the repository source under modules/ (NOT the tests, NOT shipped data tables) that makes the tool violate the property for SOME inputs / situations only, while everything still imports and all 55 tests pass.  It must look like a plausible maintenance edit, refactoring slip, optimisation or feature tweak (not sabotage), and it must need something SPECIFIC to manifest (a particular input shape / value range / length / ordering, a particular option combination, a particular sequence of operations, a particular failure point, or two cooperating sites that each look fine alone).  Ordinary inputs must behave exactly as before.
 2. IMPORTANT - be original: other people have already tried the following ideas for this property, so do something of a DIFFERENT kind, in a different part of the code or triggered by a different dimension of the input:
 %(avoid)s
-3. demo.py in the worktree root: a standalone script (run with the PYTHONPATH above) that builds the specific input, runs the REAL code, checks the property against an expectation computed independently from the statement, and exits 0 when the property holds and 1 (printing what is wrong) when it is violated.  It must exit 1 WITH your change and 0 WITHOUT it - verify both (`git diff -- modules > seeded.diff; git checkout -- modules; run; git apply seeded.diff`).
+%(extra)s3. demo.py in the worktree root: a standalone script (run with the PYTHONPATH above) that builds the specific input, runs the REAL code, checks the property against an expectation computed independently from the statement, and exits 0 when the property holds and 1 (printing what is wrong) when it is violated.  It must exit 1 WITH your change and 0 WITHOUT it - verify both (`git diff -- modules > seeded.diff; git checkout -- modules; run; git apply seeded.diff`).
 4. seeded.diff in the worktree root (`git diff -- modules`), the worktree left with the change APPLIED, and NOTES.md: what the change is, why it breaks the property, exactly what is needed for it to manifest, the commands you ran and their results.
 
 Final answer: a short summary (the diff, the trigger condition, the three verification results).  Make sure all three really hold before answering.
@@ -80,5 +80,6 @@ for i in sys.argv[2:]:
         avoid.append('   - ' + json.load(open(m))['change'])
     open(wt + '/TASK.md', 'w').write(TEMPLATE % dict(id=i, wt=wt, title=p['title'], statement=p['statement'],
                                                      quant=p['quantifier']['text'], relevant=RELEVANT[i],
-                                                     primer=PRIMER, avoid='\n'.join(avoid)))
+                                                     primer=PRIMER, avoid='\n'.join(avoid),
+                                                     extra=(os.environ.get('SEED_EXTRA', '') + '\n') if os.environ.get('SEED_EXTRA') else ''))
     print(wt)
